@@ -365,17 +365,17 @@ fn slab_schema(t: u8) -> TableSchema {
     if t % 3 == 2 {
         TableSchema::new(vec![ColumnDef::new("only", ColumnType::Float, true)])
     } else {
-        // every second table of this shape declares half of its columns NOT NULL; the rows are
-        // the same (the slab leaves the enforcement of the flag to the layers above, so a
-        // NULL in such a column is store content like any other)
+        // both tables of this shape declare some of the columns that hold NULLs NOT NULL (each
+        // table other ones); the slab leaves the enforcement of the flag to the layers above,
+        // so a NULL in such a column is store content like any other
         let n = t % 3 == 0;
         TableSchema::new(vec![
             ColumnDef::new("id", ColumnType::Int, false),
             ColumnDef::new("ci", ColumnType::Int, n),
-            ColumnDef::new("cf", ColumnType::Float, n),
+            ColumnDef::new("cf", ColumnType::Float, !n),
             ColumnDef::new("cs", ColumnType::String, true),
             ColumnDef::new("cb", ColumnType::Bool, n),
-            ColumnDef::new("cx", ColumnType::Bytes, n),
+            ColumnDef::new("cx", ColumnType::Bytes, !n),
             ColumnDef::new("cj", ColumnType::Json, true),
         ])
         .with_primary_key("id")
